@@ -28,7 +28,7 @@ LEVEL_TEXT = (
     "Each int field takes 0..4098, -1, -2, 2^k-1/2^k/2^k+1 for k<=32, 2^16+-1, 2^24+-1, 2^32+-1, -2^31; each bytes field every length 0..20 "
     "(random, zero, 0xFF and other all-equal content); list fields every length 0..8 distinct, the same element 2..8 times (identical and "
     "equal-but-distinct objects), duplicates at start/middle/end, maximum length and beyond with 2/3/6 distinct values; bool/enum/address/list/DPT payload/SCF fields their domains; nested SecureData byte fields every length 0..20; "
-    "the other fields at the baseline and (quick x3, thorough x20) at random values that round-trip on their own. Exploration: values beyond the sweep are not tried."
+    "every value both through the constructor and by assignment to a valid object after construction; the other fields at the baseline and (quick x3, thorough x20) at random values that round-trip on their own. Exploration: values beyond the sweep are not tried."
 )
 LEVEL_NOTE = (
     "Trusted: CPython, struct, the valid frames of vlib/apci_gen.py. Judged: if to_knx() returns, the PDU must decode (APCI.from_knx) to an "
@@ -185,6 +185,20 @@ def with_field(obj, path, value):
     return dataclasses.replace(obj, **{path: value})
 
 
+def assign_field(base, path, value):
+    """Fresh valid copy of `base`, then the (possibly nested) field is *assigned* - no constructor, no __post_init__."""
+    obj = dataclasses.replace(base)
+    if "." in path:
+        head, tail = path.split(".", 1)
+        inner = getattr(obj, head)
+        inner = SecureData(**{n: getattr(inner, n) for n in SECURE_DATA_FIELDS})
+        setattr(inner, tail, value)
+        setattr(obj, head, inner)
+    else:
+        setattr(obj, path, value)
+    return obj
+
+
 def get_field(obj, path):
     for part in path.split("."):
         obj = getattr(obj, part)
@@ -235,7 +249,7 @@ class Sweep:
         self.n = 0
         self.repeated = 0
 
-    def judge(self, obj, cname, path, value, frame, others):
+    def judge(self, obj, cname, path, value, frame, others, assigned=False):
         """Encode `obj`; refusal or equal round trip. Returns 'refused' | 'ok' | 'bad'."""
         self.n += 1
         stats = self.per_class.setdefault(cname, {"encoded": 0, "refused": 0})
@@ -267,7 +281,7 @@ class Sweep:
             )
         self.repeated += 1
         wit = {
-            "class": cname, "field": path, "value": pack_value(value), "baseline_frame": frame.hex(),
+            "class": cname, "field": path, "value": pack_value(value), "baseline_frame": frame.hex(), "assigned_after_construction": assigned,
             "other_fields": {p: pack_value(v) for p, v in others.items()}, "object": str(obj)[:300], "encoded": enc.hex(),
         }
         try:
@@ -334,6 +348,14 @@ def sweep_class(ctx, sweep, cname, frame, base, rng, variants):
             values.extend(dom)
         ok_values = []
         for value in values:
+            # the objects are mutable: a value may also arrive by assignment after a valid object was built
+            try:
+                late = assign_field(base, path, value)
+            except Exception:  # noqa: BLE001
+                ctx.count("assignment_refused")
+            else:
+                sweep.judge(late, cname, path, value, frame, {}, assigned=True)
+                ctx.count("assigned_after_construction_cases")
             try:
                 obj = with_field(base, path, value)
             except Exception:  # noqa: BLE001 - constructor refusal (__post_init__)
@@ -376,7 +398,8 @@ def run(ctx):
         "per service class (walk of APCI.__subclasses__) x baseline instance (decoded valid frame) x field x value domain of the field's "
         "declared type; other fields at baseline, then random; distinct = (class, field, roundtrip | refused x exception class)"
     )
-    ctx.require("objects_encoded", "objects_refused", "fields_swept", "service_classes_swept", "random_other_fields_cases")
+    ctx.require("objects_encoded", "objects_refused", "fields_swept", "service_classes_swept", "random_other_fields_cases",
+                "assigned_after_construction_cases")
     live = live_service_classes()
     base = baselines(ctx, live)
     sweep = Sweep(ctx)
@@ -423,7 +446,10 @@ def replay(ctx, witness):
         for p, v in witness.get("other_fields", {}).items():
             obj = with_field(obj, p, unpack_value(v))
         value = unpack_value(witness["value"])
-        obj = with_field(obj, witness["field"], value)
+        if witness.get("assigned_after_construction"):
+            obj = assign_field(obj, witness["field"], value)
+        else:
+            obj = with_field(obj, witness["field"], value)
     else:
         obj, value = live[cname](), None
     sweep.judge(obj, cname, witness["field"], value, frame, {})
